@@ -49,7 +49,7 @@ def witness_source(tier, alloc):
         L.append("pub fn w_list_%d() -> GenericArray<u32, U%d> { arr![%s] }" % (k, k, els))
         if k > 0 and k <= 33:
             L.append("pub fn w_listtc_%d() -> GenericArray<u32, U%d> { arr![%s,] }" % (k, k, els))
-        if alloc and k <= 64:
+        if alloc:
             L.append("pub fn b_list_%d() -> alloc::boxed::Box<GenericArray<u32, U%d>> { box_arr![%s] }" % (k, k, els))
     for k in (0, 1, 3, 12):
         L.append("pub const fn c_list_%d() -> GenericArray<u32, U%d> { arr![%s] }" % (k, k, ", ".join(str(i) for i in range(k))))
@@ -228,7 +228,7 @@ def check(ctx):
             n_list += 1
             if 0 < k <= 33:
                 check_list(ctx, cfg, db, "w_listtc_%d" % k, k, False)
-            if alloc and k <= 64:
+            if alloc:
                 check_list(ctx, cfg, db, "b_list_%d" % k, k, True)
         for n in REPEATS:
             check_repeat(ctx, cfg, db, "w_repty_%d" % n, n, "ty")
